@@ -40,6 +40,15 @@ attribute the code treats as data - constructor keyword, attribute store, read a
 returned by a factory) and no trace-package function with an open hook operation (value kinds of the arguments bound,
 _ModeAnalysis) outside a containing try: moving work that both modes do (context delta, post checks) under the trace
 test makes its failures trace-only.
+Round 7 (seed7 C10 a/b/c, fix 42d5a53): pass-through sanitisers are found by role (probe a parameter with the JSON
+encoder, hand the parameter back); D1 sinks-keep-sanitised-values-as-given: a driver callback applies no asdict / astuple /
+deepcopy / type(v)(..) to a record or a part of it that carries such a value (record fields decided by value flow from the
+producers execute() binds to the record builder; the record's own dataclasses may be converted); D1
+mappings-of-caller-values-sanitised-throughout: a container that receives sanitised values receives only sanitised /
+constructed-safe values on every branch; D1 trace-only-code-is-total: no uncontained, unguarded partial operation (n-th
+element, next / min / max without default, .index, division) on run-derived values in trace-only code, failure handlers
+included; D1 run-keyed-mappings-ordered-by-their-producer: with a sort_keys encoder in the drivers, a trace-package
+function fills a returned mapping keyed by run-derived keys only while iterating over one sorted(..) of them.
 """
 from __future__ import annotations
 
@@ -438,6 +447,10 @@ def run(repo: Repo, R: Report) -> None:
     _driver_reusable_after_close(repo, R)
     _mode_selected_work_contained(repo, R, ex, fold)
     _trace_only_work_contained(repo, R, ex, facts, drivers)
+    _sinks_keep_values_as_given(repo, R, ex, drivers)
+    _mappings_of_sanitised_values_agree(repo, R)
+    _trace_only_code_is_total(repo, R, ex, facts, helper_fns)
+    _record_mapping_keys_ordered(repo, R, ex, facts)
     # the caller-owned canonical spec is not mutated (pipeline_id would depend on history)
     from . import c04
 
@@ -2941,3 +2954,822 @@ def _trace_only_work_contained(repo: Repo, R: Report, ex: ast.AST, facts: "_Trac
             R.ok(r, ORCH, EXECUTE, f"trace-only {what} at line {n.lineno} (`{norm(n.test)[:40]}`): work held as data / open trace-package work: none")
     if n_ret < 3:
         raise AnalysisError(f"execute(): only {n_ret} trace-only parts on a returning path were recognised")
+
+
+# ---------------------------------------------------------------------------------------------------------
+# Round 7 (seed7 C10 a/b/c, fix 42d5a53): the values the sanitisers let through as given - who carries them into the
+# record, what a driver may do to them before the encoder call, and which own failures trace-only code may have
+# ---------------------------------------------------------------------------------------------------------
+_REBUILD_CALLS = {"asdict": "dataclasses.asdict rebuilds every mapping / sequence inside through its own class (`type(obj)(pairs)`)",
+                  "astuple": "dataclasses.astuple rebuilds every mapping / sequence inside through its own class",
+                  "deepcopy": "copy.deepcopy runs the `__deepcopy__` / `__reduce_ex__` hooks of every value inside and rebuilds it through its class"}
+_NOT_A_VALUE = {"fields", "is_dataclass", "isinstance", "len", "type", "id", "hasattr", "callable", "bool", "str", "repr", "int", "float"}
+
+
+def _arms(e: Optional[ast.AST]) -> List[ast.AST]:
+    if isinstance(e, ast.IfExp):
+        return _arms(e.body) + _arms(e.orelse)
+    if isinstance(e, ast.BoolOp):
+        return [a for v in e.values for a in _arms(v)]
+    return [] if e is None else [e]
+
+
+def _passthrough_sanitisers(repo: Repo) -> Dict[int, Tuple[str, str, ast.AST]]:
+    """Functions of the package that play the role of `serialize_json_safe`: they probe a parameter with the JSON encoder
+    and hand the parameter itself back when the probe succeeds (something else - text - otherwise).  What they return
+    is the caller's own object, of the caller's own class: found by that shape, wherever they live and whatever they
+    are called."""
+    out: Dict[int, Tuple[str, str, ast.AST]] = {}
+    for m, qn, f in repo.all_functions():
+        if not isinstance(f, ast.FunctionDef) or any(isinstance(a, FuncNode) for a in ancestors(f)):
+            continue
+        params = {a.arg for a in f.args.posonlyargs + f.args.args + f.args.kwonlyargs} - {"self", "cls"}
+        rets = [n for n in walk_no_nested(f) if isinstance(n, ast.Return) and n.value is not None]
+        back = {a.id for n in rets for a in _arms(n.value) if isinstance(a, ast.Name) and a.id in params}
+        if not back or not any(not (isinstance(a, ast.Name) and a.id in back) for n in rets for a in _arms(n.value)):
+            continue
+
+        def probes(fn: ast.AST, names: Set[str]) -> bool:
+            return any(call_attr(c) in ("dumps", "dump") and c.args and isinstance(c.args[0], ast.Name) and c.args[0].id in names for c in calls_in(fn))
+
+        ok = probes(f, back)
+        if not ok:
+            for c in calls_in(f):
+                for m2, t in repo.resolve_call(m, c):
+                    b = _bind_call(t, c) if isinstance(t, ast.FunctionDef) else None
+                    if b and probes(t, {p for p, a in b.items() if isinstance(a, ast.Name) and a.id in back}):
+                        ok = True
+        if ok:
+            out[id(f)] = (m.rel, qn, f)
+    return out
+
+
+_BIND_CACHE: Dict[int, Tuple[ast.AST, Dict[str, List[ast.AST]]]] = {}
+
+
+def _bindings_of(fn: ast.AST, name: str) -> List[ast.AST]:
+    """Every expression whose value (or a part of it) the local *name* of *fn* can hold: right-hand sides of the
+    assignments that bind it (tuple targets included) and what is stored into / added to it."""
+    hit = _BIND_CACHE.get(id(fn))
+    if hit is None or hit[0] is not fn:
+        idx: Dict[str, List[ast.AST]] = {}
+        for n in walk_no_nested(fn):
+            if isinstance(n, (ast.Assign, ast.AnnAssign, ast.AugAssign)) and getattr(n, "value", None) is not None:
+                for t in (n.targets if isinstance(n, ast.Assign) else [n.target]):
+                    if isinstance(t, ast.Subscript) and isinstance(t.value, ast.Name):
+                        idx.setdefault(t.value.id, []).append(n.value)
+                    else:
+                        for x in ast.walk(t):
+                            if isinstance(x, ast.Name) and isinstance(x.ctx, ast.Store):
+                                idx.setdefault(x.id, []).append(n.value)
+            elif isinstance(n, ast.NamedExpr):
+                idx.setdefault(n.target.id, []).append(n.value)
+            elif isinstance(n, ast.Call) and isinstance(n.func, ast.Attribute) and isinstance(n.func.value, ast.Name) and n.func.attr in GROWERS:
+                idx.setdefault(n.func.value.id, []).extend(list(n.args) + [k.value for k in n.keywords])
+        hit = _BIND_CACHE[id(fn)] = (fn, idx)
+    return hit[1].get(name, [])
+
+
+_KEEPS_ARGS = {"dict", "list", "tuple", "sorted", "set", "frozenset", "reversed", "copy", "deepcopy", "asdict", "astuple", "cast", "OrderedDict", "MappingProxyType", "chain", "vars", "enumerate", "zip", "iter", "next", "getattr", "replace"}
+_KEEPS_RECEIVER = {"get", "copy", "items", "values", "pop", "setdefault", "popitem", "union", "__getitem__"}
+
+
+def _value_parts(e: ast.AST) -> List[ast.AST]:
+    """The sub-expressions whose value can be (a part of) the value of *e*: operands of displays, conditional
+    expressions, unions, subscripts / attribute reads, the copying builtins and the reading methods of containers.  A call
+    of anything else yields a value of its own."""
+    if isinstance(e, (ast.Constant, ast.JoinedStr, ast.Compare)):
+        return []
+    if isinstance(e, ast.Call):
+        d = (call_name(e) or "").split(".")[-1]
+        if isinstance(e.func, ast.Attribute) and e.func.attr in _KEEPS_RECEIVER:
+            return [e.func.value] + list(e.args[1:])
+        if d in _KEEPS_ARGS:
+            return list(e.args) + [k.value for k in e.keywords]
+        return []
+    if isinstance(e, (ast.Attribute, ast.Subscript, ast.Starred, ast.Await, ast.NamedExpr)):
+        return [e.value]
+    if isinstance(e, ast.Lambda):
+        return [e.body]
+    if isinstance(e, ast.DictComp):
+        return [e.value] + [g.iter for g in e.generators]
+    if isinstance(e, (ast.ListComp, ast.SetComp, ast.GeneratorExp)):
+        return [e.elt] + [g.iter for g in e.generators]
+    if isinstance(e, ast.Dict):
+        return list(e.values)
+    return [ch for ch in ast.iter_child_nodes(e) if isinstance(ch, ast.expr)]
+
+
+class _CallerValues:
+    """Which expressions carry a value that a pass-through sanitiser handed back as given (the caller's own object):
+    the result of such a sanitiser, of a repository function on the trace path that applies one, or a local / container
+    filled from those."""
+
+    def __init__(self, repo: Repo, sans: Dict[int, Tuple[str, str, ast.AST]]):
+        self.repo, self.sans = repo, sans
+        self.fn_cache: Dict[int, Optional[ast.AST]] = {}
+
+    def targets(self, mod, fn: ast.AST, c: ast.Call) -> List[Tuple[object, ast.AST]]:
+        tg = [(m, t) for m, t in self.repo.resolve_call(mod, c) if isinstance(t, FuncNode)]
+        if not tg:
+            try:
+                tg = [(m, t) for m, t in _method_of_local_instance(self.repo, mod, c) if isinstance(t, FuncNode)]
+            except Exception:
+                tg = []
+        return tg
+
+    def fn_carries(self, m, f: ast.AST, depth: int = 0) -> Optional[ast.AST]:
+        if id(f) in self.sans:
+            return f
+        if id(f) in self.fn_cache:
+            return self.fn_cache[id(f)]
+        self.fn_cache[id(f)] = None
+        for c in calls_in(f, include_nested=True):
+            for m2, t in self.targets(m, f, c):
+                if id(t) in self.sans or (depth < 3 and t is not f and (m2.rel == ORCH or _trace_package(m2.rel)) and self.fn_carries(m2, t, depth + 1) is not None):
+                    self.fn_cache[id(f)] = c
+                    return c
+        return None
+
+    def _ret_deps(self, t: ast.AST) -> Set[str]:
+        """Parameters of the repository function *t* that its result can be or contain."""
+        key = ("ret", id(t))
+        if key not in self.fn_cache:
+            params = {a.arg for a in t.args.posonlyargs + t.args.args + t.args.kwonlyargs}
+            out: Set[str] = set()
+            seen: Set[str] = set()
+            todo = [n.value for n in walk_no_nested(t) if isinstance(n, ast.Return) and n.value is not None]
+            while todo:
+                x = todo.pop()
+                if isinstance(x, ast.Name):
+                    if x.id in seen:
+                        continue
+                    seen.add(x.id)
+                    if x.id in params:
+                        out.add(x.id)
+                    todo.extend(_bindings_of(t, x.id))
+                else:
+                    todo.extend(_value_parts(x))
+            self.fn_cache[key] = out  # type: ignore[assignment,index]
+        return self.fn_cache[key]  # type: ignore[return-value,index]
+
+    def expr_carries(self, mod, fn: ast.AST, e: Optional[ast.AST], depth: int = 0, seen: Optional[Set[str]] = None) -> Optional[ast.AST]:
+        """A witness (the call that produces the caller's value) when *e*, evaluated in *fn*, can carry one.  A call of
+        a repository function carries what the function produces, and those of its arguments that its result is computed
+        from; any other call (builtin, method of a local) what its receiver and arguments carry."""
+        if e is None or depth > 8 or isinstance(e, (ast.Constant, ast.JoinedStr, ast.Compare)):
+            return None
+        seen = set() if seen is None else seen
+        subs: List[ast.AST] = []
+        if isinstance(e, ast.Call):
+            tg = self.targets(mod, fn, e)
+            if tg:
+                for m2, t in tg:
+                    if self.fn_carries(m2, t) is not None:
+                        return e
+                    b = _bind_call(t, e)
+                    if b is None:
+                        subs.extend(list(e.args) + [k.value for k in e.keywords])
+                    else:
+                        subs.extend(b[p] for p in sorted(self._ret_deps(t)) if p in b)
+            else:
+                vals = _stored_callable(fn, e) if isinstance(e.func, ast.Attribute) and isinstance(fn, FuncNode) else None
+                if vals:
+                    subs.extend(v.body if isinstance(v, ast.Lambda) else v for v in vals)
+                else:
+                    subs.extend(_value_parts(e))
+        elif isinstance(e, ast.Name):
+            if isinstance(e.ctx, ast.Load) and e.id not in seen and isinstance(fn, FuncNode):
+                seen.add(e.id)
+                subs.extend(_bindings_of(fn, e.id))
+        else:
+            subs.extend(_value_parts(e))
+        for sub in subs:
+            w = self.expr_carries(mod, fn, sub, depth + 1, seen)
+            if w is not None:
+                return w
+        return None
+
+
+def _param_deps(fn: ast.AST, e: ast.AST, seen: Optional[Set[str]] = None) -> Set[str]:
+    """Parameters of *fn* the value of *e* is computed from (through its locals)."""
+    seen = set() if seen is None else seen
+    params = {a.arg for a in fn.args.posonlyargs + fn.args.args + fn.args.kwonlyargs}
+    out: Set[str] = set()
+    for x in ast.walk(e):
+        if isinstance(x, ast.Name) and isinstance(x.ctx, ast.Load) and x.id not in seen:
+            seen.add(x.id)
+            if x.id in params:
+                out.add(x.id)
+            for v in _bindings_of(fn, x.id):
+                out |= _param_deps(fn, v, seen)
+    return out
+
+
+def _record_fields(repo: Repo, ex: ast.AST, drivers: Set[str], cv: _CallerValues) -> Optional[Dict[str, Optional[ast.AST]]]:
+    """field of the step record -> witness that it carries a caller's value as given (None: it does not), decided on
+    the function execute() hands to on_node_event (found by that role) and on the arguments execute() binds; None when
+    the record is not assembled by a constructor call / mapping display with named fields."""
+    omod = repo.module(ORCH)
+    fields: Dict[str, Optional[ast.AST]] = {}
+    found = False
+    for c in calls_in(ex):
+        if not _orch.is_driver_call(c, drivers, "on_node_event"):
+            continue
+        for a in list(c.args) + [k.value for k in c.keywords]:
+            for site in _value_forms(ex, a):
+                if not isinstance(site, ast.Call):
+                    continue
+                for m, f in repo.resolve_call(omod, site):
+                    if not isinstance(f, FuncNode) or f.name == "__init__":
+                        continue
+                    nf = nfunc(repo, m.rel, qualname_of(f))
+                    b = _bind_call(f, site)
+                    for _fn, _ret, form in _returned_forms(repo, m, nf):
+                        items: List[Tuple[str, ast.AST]] = []
+                        if isinstance(form, ast.Call) and form.keywords and not form.args and all(k.arg is not None for k in form.keywords):
+                            items = [(k.arg, k.value) for k in form.keywords]
+                        elif isinstance(form, ast.Dict) and form.keys and all(isinstance(k, ast.Constant) and isinstance(k.value, str) for k in form.keys):
+                            items = [(k.value, v) for k, v in zip(form.keys, form.values)]
+                        if not items or b is None:
+                            return None
+                        found = True
+                        for name, v in items:
+                            w = cv.expr_carries(m, nf, v)
+                            if w is None:
+                                for p in sorted(_param_deps(nf, v)):
+                                    if p in b:
+                                        w = w or cv.expr_carries(omod, ex, b[p])
+                            fields[name] = fields.get(name) or w
+    return fields if found else None
+
+
+def _model_dataclass_fields(repo: Repo, mod, ann: Optional[ast.AST]) -> Optional[Tuple[ast.ClassDef, Dict[str, bool]]]:
+    """(class, field -> declared as a dataclass of the package) for a parameter annotated with a dataclass of the package."""
+    if ann is None:
+        return None
+    for x in ast.walk(ann):
+        if isinstance(x, (ast.Name, ast.Attribute)):
+            r = repo.resolve_name(mod, x, x)
+            if r is not None and isinstance(r[1], ast.ClassDef) and _is_dataclass_def(r[1]):
+                m2, cls = r
+                out: Dict[str, bool] = {}
+                for st in cls.body:
+                    if isinstance(st, ast.AnnAssign) and isinstance(st.target, ast.Name):
+                        sub = False
+                        for y in ast.walk(st.annotation):
+                            if isinstance(y, (ast.Name, ast.Attribute)):
+                                r2 = repo.resolve_name(m2, y, y)
+                                sub = sub or (r2 is not None and isinstance(r2[1], ast.ClassDef) and _is_dataclass_def(r2[1]))
+                        out[st.target.id] = sub
+                return cls, out
+    return None
+
+
+def _is_dataclass_def(cls: ast.ClassDef) -> bool:
+    return any((dotted_name(d.func if isinstance(d, ast.Call) else d) or "").split(".")[-1] == "dataclass" for d in cls.decorator_list)
+
+
+WHOLE = "<the whole record>"
+
+
+def _sinks_keep_values_as_given(repo: Repo, R: Report, ex: ast.AST, drivers: Set[str]) -> None:
+    r = R.rule("C10-D1-sinks-keep-sanitised-values-as-given", "between the sanitiser and the encoder call a trace driver does not rebuild the values it was handed through their own class: no `dataclasses.asdict` / `astuple`, `copy.deepcopy` or `type(v)(..)` / `v.__class__(..)` applied to a record - or to a part of it - that carries a value which `serialize_json_safe` (any function playing that role) let through as given. Such a value is the caller's own object (a `collections.Counter` node parameter, a dict subclass from the context); it was probed with the encoder, its rebuilt copy was not (Counter(pairs) has tuple keys) and running its class's constructor / copy hooks is user code: the traced run raises where the untraced run returns. Converting the record's own dataclasses field by field, or a part that holds only values the framework computed, is fine", 3)
+    _BIND_CACHE.clear()
+    sans = _passthrough_sanitisers(repo)
+    if not sans:
+        raise AnalysisError("no pass-through sanitiser (probe with json.dumps, return the argument) found in the package")
+    cv = _CallerValues(repo, sans)
+    rec_fields = _record_fields(repo, ex, drivers, cv)
+    if rec_fields is not None and not any(rec_fields.values()):
+        raise AnalysisError("no field of the step record carries a sanitised caller value (parameters of the node): anchor vanished")
+    R.note("C10-D1-sinks-keep-sanitised-values-as-given: record fields carrying caller values as given: " + (", ".join(sorted(k for k, v in rec_fields.items() if v is not None)) if rec_fields is not None else "<record shape not recognised: every part is taken to carry them>"))
+    ex_sites: Dict[str, List[ast.Call]] = {}
+    for c in calls_in(ex):
+        if _orch.is_driver_call(c, drivers):
+            ex_sites.setdefault(c.func.attr, []).append(c)
+    omod = repo.module(ORCH)
+    n_cb = 0
+    for rel in sorted(m for m in repo.modules if m.startswith("semantiva/trace/drivers/")):
+        mod = repo.module(rel)
+        for cls in [c for c in mod.tree.body if isinstance(c, ast.ClassDef)]:
+            meths = {st.name: st for st in cls.body if isinstance(st, FuncNode)}
+            for root in sorted(m for m in meths if m in _orch.DRIVER_METHODS):
+                f0 = meths[root]
+                params = [a for a in f0.args.posonlyargs + f0.args.args + f0.args.kwonlyargs if a.arg not in ("self", "cls")]
+                if not params:
+                    continue
+                n_cb += 1
+                # what each parameter is: a record of the model (fields known), or another handed value
+                env0: Dict[str, Set[str]] = {}
+                declared: Dict[str, bool] = {}
+                other: Dict[str, Optional[ast.AST]] = {}
+                for a in params:
+                    ann = (ast.unparse(a.annotation) if a.annotation is not None else "").replace(" ", "")
+                    if ann in ("str", "int", "float", "bool", "str|None", "int|None", "float|None", "bool|None", "Optional[str]", "Optional[int]", "Optional[float]", "Optional[bool]"):
+                        continue
+                    dc = _model_dataclass_fields(repo, mod, a.annotation)
+                    if dc is not None or (root == "on_node_event" and a is params[0]):
+                        env0[a.arg] = {WHOLE}
+                        if dc is not None:
+                            declared.update(dc[1])
+                    else:
+                        env0[a.arg] = {f"<parameter {a.arg}>"}
+                        w: Optional[ast.AST] = None
+                        known = bool(ex_sites.get(root))
+                        for site in ex_sites.get(root, []):
+                            b = _bind_call(f0, site)
+                            if b is None or a.arg not in b:
+                                known = known and b is not None
+                                continue
+                            w = w or cv.expr_carries(omod, ex, b[a.arg])
+                            if w is None and any("run_metadata" in norm(v) for v in [b[a.arg]] + [v for nm in sorted(names_loaded_expr(b[a.arg])) for v in _bindings_of(ex, nm)]):
+                                w = b[a.arg]  # taken from the caller's run metadata
+                        other[f"<parameter {a.arg}>"] = w if (w is not None or known) else a
+                _rebuilds_in(repo, R, r, rel, mod, cls, meths, root, env0, declared, rec_fields, other, set(), 0)
+    if n_cb == 0:
+        raise AnalysisError("no trace driver callback that is handed a value found under semantiva/trace/drivers/")
+
+
+def names_loaded_expr(e: ast.AST) -> Set[str]:
+    return {x.id for x in ast.walk(e) if isinstance(x, ast.Name) and isinstance(x.ctx, ast.Load)}
+
+
+def _rebuilds_in(repo: Repo, R: Report, r, rel: str, mod, cls: ast.ClassDef, meths, name: str, env0: Dict[str, Set[str]], declared: Dict[str, bool], rec_fields, other, seen: Set[Tuple[str, Tuple]], depth: int) -> None:
+    key = (name, tuple(sorted((k, tuple(sorted(v))) for k, v in env0.items())))
+    if key in seen or depth > 4 or name not in meths:
+        return
+    seen.add(key)
+    f = meths[name]
+    qn = f"{cls.name}.{name}"
+    field_names = set(rec_fields or {}) | set(declared)
+    env: Dict[str, Set[str]] = {k: set(v) for k, v in env0.items()}
+
+    def origin(e: Optional[ast.AST]) -> Set[str]:
+        """The parts of the handed values *e* can hold (empty: none of them)."""
+        if e is None or isinstance(e, (ast.Constant, ast.JoinedStr, ast.Compare, ast.Lambda)):
+            return set()
+        if isinstance(e, ast.Name):
+            return set(env.get(e.id, ()))
+        if isinstance(e, ast.Attribute):
+            o = origin(e.value)
+            return {e.attr} if WHOLE in o and e.attr in field_names else o
+        if isinstance(e, ast.Subscript):
+            o = origin(e.value)
+            if WHOLE in o and isinstance(e.slice, ast.Constant) and e.slice.value in field_names:
+                return {e.slice.value}
+            return o
+        if isinstance(e, ast.Call):
+            d = (call_name(e) or "").split(".")[-1]
+            if isinstance(e.func, ast.Name) and d in _NOT_A_VALUE:
+                return set()
+            if d == "getattr" and len(e.args) >= 2:
+                o = origin(e.args[0])
+                if WHOLE in o and isinstance(e.args[1], ast.Constant) and e.args[1].value in field_names:
+                    return {e.args[1].value}
+                return o | (origin(e.args[2]) if len(e.args) > 2 else set())
+            if isinstance(e.func, ast.Attribute):
+                o = origin(e.func.value)
+                if o:
+                    if e.func.attr in ("get", "pop") and e.args and isinstance(e.args[0], ast.Constant) and WHOLE in o and e.args[0].value in field_names:
+                        return {e.args[0].value} | set().union(*[origin(a) for a in e.args[1:]], set())
+                    return o | set().union(*[origin(a) for a in e.args], set())
+            return set().union(*[origin(a) for a in list(e.args) + [k.value for k in e.keywords]], set())
+        if isinstance(e, ast.IfExp):
+            return origin(e.body) | origin(e.orelse)
+        if isinstance(e, (ast.DictComp,)):
+            return origin(e.key) | origin(e.value)
+        if isinstance(e, (ast.ListComp, ast.SetComp, ast.GeneratorExp)):
+            return origin(e.elt)
+        out: Set[str] = set()
+        for ch in ast.iter_child_nodes(e):
+            if isinstance(ch, ast.expr):
+                out |= origin(ch)
+        return out
+
+    changed, rounds = True, 0
+    while changed and rounds < 12:
+        changed, rounds = False, rounds + 1
+        for n in ast.walk(f):
+            binds: List[Tuple[ast.AST, Set[str]]] = []
+            if isinstance(n, ast.Assign):
+                binds = [(t, origin(n.value)) for t in n.targets]
+            elif isinstance(n, (ast.AnnAssign, ast.AugAssign)) and n.value is not None:
+                binds = [(n.target, origin(n.value))]
+            elif isinstance(n, ast.NamedExpr):
+                binds = [(n.target, origin(n.value))]
+            elif isinstance(n, (ast.For, ast.comprehension)):
+                binds = [(n.target, origin(n.iter))]
+            elif isinstance(n, ast.Call) and isinstance(n.func, ast.Attribute) and isinstance(n.func.value, ast.Name) and n.func.attr in GROWERS:
+                binds = [(n.func.value, set().union(*[origin(a) for a in list(n.args) + [k.value for k in n.keywords]], set()))]
+            for t, o in binds:
+                if not o:
+                    continue
+                tgt = t
+                while isinstance(tgt, (ast.Subscript, ast.Attribute)):
+                    tgt = tgt.value
+                for x in ([tgt] if isinstance(tgt, ast.Name) else [y for y in ast.walk(tgt) if isinstance(y, ast.Name)]):
+                    if x.id in ("self", "cls"):
+                        continue
+                    if not o <= env.get(x.id, set()):
+                        env.setdefault(x.id, set()).update(o)
+                        changed = True
+
+    def narrowed(c: ast.Call, arg: ast.AST, parts: Set[str]) -> Set[str]:
+        """Under a test that the value is a dataclass instance only the record's own dataclass fields remain."""
+        if WHOLE not in parts or not declared:
+            return parts
+        child: ast.AST = c
+        for a in ancestors(c):
+            if isinstance(a, FuncNode + (ast.Lambda,)):
+                break
+            tests: List[ast.AST] = []
+            if isinstance(a, ast.If) and any(child is s for s in a.body):
+                tests = [a.test]
+            elif isinstance(a, ast.IfExp) and child is a.body:
+                tests = [a.test]
+            elif isinstance(a, (ast.DictComp, ast.ListComp, ast.SetComp, ast.GeneratorExp)):
+                tests = [i for g in a.generators for i in g.ifs]
+            for t in tests:
+                for op in ([t] if not (isinstance(t, ast.BoolOp) and isinstance(t.op, ast.And)) else t.values):
+                    if isinstance(op, ast.Call) and (call_name(op) or "").split(".")[-1] == "is_dataclass" and op.args and norm(op.args[0]) == norm(arg):
+                        return (parts - {WHOLE}) | {k for k, sub in declared.items() if sub}
+            child = a
+        return parts
+
+    def carried(parts: Set[str]) -> Optional[Tuple[str, Optional[ast.AST]]]:
+        for p in sorted(parts):
+            if p == WHOLE:
+                if rec_fields is None:
+                    return p, None
+                for k in sorted(rec_fields):
+                    if rec_fields[k] is not None:
+                        return f"the whole record, whose field `{k}`", rec_fields[k]
+            elif p in other:
+                if other[p] is not None:
+                    return p, other[p]
+            elif rec_fields is None or rec_fields.get(p) is not None:
+                return f"the record field `{p}`, which", (rec_fields or {}).get(p)
+        return None
+
+    n_here = 0
+    for c in sorted([x for x in ast.walk(f) if isinstance(x, ast.Call)], key=lambda x: (x.lineno, x.col_offset)):
+        d = (call_name(c) or "").split(".")[-1]
+        how = ""
+        args: List[ast.AST] = []
+        if d in _REBUILD_CALLS and (isinstance(c.func, ast.Name) or (dotted_name(c.func) or "").split(".")[0] in ("dataclasses", "copy")) and (c.args or c.keywords):
+            how, args = _REBUILD_CALLS[d], (list(c.args[:1]) or [c.keywords[0].value])
+        elif isinstance(c.func, ast.Call) and call_name(c.func) == "type" and len(c.func.args) == 1:
+            how, args = "`type(v)(..)` runs the constructor of the value's own class", [c.func.args[0]] + list(c.args)
+        elif isinstance(c.func, ast.Attribute) and c.func.attr == "__class__":
+            how, args = "`v.__class__(..)` runs the constructor of the value's own class", [c.func.value] + list(c.args)
+        if how:
+            parts: Set[str] = set()
+            for a in args:
+                parts |= narrowed(c, a, origin(a))
+            if not parts:
+                continue
+            n_here += 1
+            hit = carried(parts)
+            why = ""
+            if hit is not None:
+                what, w = hit
+                why = f"`{norm(c)[:60]}` is applied to {what} carries a value the sanitiser let through as given" + (f" (`{norm(w)[:60]}`)" if w is not None and not isinstance(w, ast.arg) else "") + f": {how}, so what reaches the encoder is not what was probed (a collections.Counter parameter comes back with tuple keys, json.dumps raises TypeError - also in the fallback) and the traced run fails where the untraced run succeeds; convert the record's own dataclasses field by field instead"
+            R.check(hit is None, r, rel, qn, norm(stmt_of(c))[:90], why, c.lineno)
+        elif isinstance(c.func, ast.Attribute) and isinstance(c.func.value, ast.Name) and c.func.value.id == "self" and c.func.attr in meths and c.func.attr != name:
+            t = meths[c.func.attr]
+            b = _bind_call(t, c)
+            if b:
+                sub = {p: origin(a) for p, a in b.items() if origin(a)}
+                if sub:
+                    _rebuilds_in(repo, R, r, rel, mod, cls, meths, c.func.attr, sub, declared, rec_fields, other, seen, depth + 1)
+    if n_here == 0 and depth == 0:
+        R.ok(r, rel, qn, f"{qn}: no class-rebuilding copy of what it is handed")
+
+
+def _mappings_of_sanitised_values_agree(repo: Repo, R: Report) -> None:
+    r = R.rule("C10-D1-mappings-of-caller-values-sanitised-throughout", "a mapping / list into which the orchestrator or the trace package stores values through a pass-through sanitiser (`serialize_json_safe`, found by its role) is a container of caller values - node parameters, declared defaults, context entries - that travels into the step record, which the driver encodes with json.dumps behind nothing but a fallback that dumps the same values again: every value stored into that container, on every branch, is sanitised too or JSON-safe by construction (constant, text, a conversion by str / repr / int / float / bool, a display of those). One raw store (a signature default that is a callable, a Path, an Enum, a numpy scalar) makes on_node_event raise inside the node's try - the traced run fails where the untraced run returns", 3)
+    sans = _passthrough_sanitisers(repo)
+    n = 0
+    for m, qn, f in sorted(repo.all_functions(), key=lambda t: (t[0].rel, t[1])):
+        if not (m.rel == ORCH or m.rel.startswith(UTILS.rsplit("/", 1)[0] + "/")) or not isinstance(f, FuncNode) or id(f) in sans or any(isinstance(a, FuncNode) for a in ancestors(f)):
+            continue
+        if not any(id(t) in sans for c in calls_in(f, include_nested=True) for _m, t in repo.resolve_call(m, c)):
+            continue
+        try:
+            nf = nfunc(repo, m.rel, qn)
+        except AnalysisError:
+            raise
+        except Exception:
+            nf = f
+
+        def is_san(v: Optional[ast.AST], depth: int = 0) -> bool:
+            if isinstance(v, ast.Call):
+                return any(id(t) in sans for _m, t in repo.resolve_call(m, v))
+            if isinstance(v, ast.Name) and depth < 3:
+                vals = _lookup(nf, v)
+                return bool(vals) and all(is_san(x, depth + 1) for x in vals)
+            return False
+
+        def safe(v: ast.AST, depth: int = 0) -> bool:
+            if is_san(v):
+                return True
+            if isinstance(v, (ast.Compare,)) or (isinstance(v, ast.UnaryOp) and isinstance(v.op, ast.Not)):
+                return True
+            if isinstance(v, ast.BoolOp):
+                return all(safe(x, depth) for x in v.values)
+            if isinstance(v, ast.IfExp):
+                return safe(v.body, depth) and safe(v.orelse, depth)
+            if isinstance(v, ast.Name) and depth < 4:
+                vals = _lookup(nf, v)
+                stores = [x for x in walk_no_nested(nf) if isinstance(x, ast.Name) and x.id == v.id and isinstance(x.ctx, ast.Store)]
+                return bool(vals) and len(stores) <= len(vals) and all(safe(x, depth + 1) for x in vals)
+            if isinstance(v, ast.Dict):
+                return all(k is not None and safe(x, depth) for k, x in zip(v.keys, v.values))
+            if isinstance(v, (ast.List, ast.Tuple)):
+                return all(safe(x, depth) for x in v.elts)
+            return _leaf_safe(nf, v)
+
+        # (container name, value, statement) for every store of a value into a named local container
+        stores: List[Tuple[str, ast.AST, ast.AST]] = []
+        for x in walk_no_nested(nf):
+            if isinstance(x, (ast.Assign, ast.AnnAssign, ast.AugAssign)) and getattr(x, "value", None) is not None:
+                for t in (x.targets if isinstance(x, ast.Assign) else [x.target]):
+                    if isinstance(t, ast.Subscript) and isinstance(t.value, ast.Name):
+                        stores.append((t.value.id, x.value, x))
+                    elif isinstance(t, ast.Name) and isinstance(x.value, ast.Dict):
+                        stores.extend((t.id, v, x) for v in x.value.values)
+                    elif isinstance(t, ast.Name) and isinstance(x.value, ast.DictComp):
+                        stores.append((t.id, x.value.value, x))
+                    elif isinstance(t, ast.Name) and isinstance(x.value, (ast.List, ast.Set)):
+                        stores.extend((t.id, v, x) for v in x.value.elts)
+                    elif isinstance(t, ast.Name) and isinstance(x.value, ast.ListComp):
+                        stores.append((t.id, x.value.elt, x))
+            elif isinstance(x, ast.Call) and isinstance(x.func, ast.Attribute) and isinstance(x.func.value, ast.Name):
+                a = x.func.attr
+                if a in ("append", "add", "appendleft") and len(x.args) == 1:
+                    stores.append((x.func.value.id, x.args[0], x))
+                elif a in ("setdefault", "insert") and len(x.args) == 2:
+                    stores.append((x.func.value.id, x.args[1], x))
+                elif a == "update":
+                    for e in x.args:
+                        if isinstance(e, ast.Dict):
+                            stores.extend((x.func.value.id, v, x) for v in e.values)
+                        elif isinstance(e, ast.DictComp):
+                            stores.append((x.func.value.id, e.value, x))
+                        else:
+                            stores.append((x.func.value.id, e, x))
+                    stores.extend((x.func.value.id, k.value, x) for k in x.keywords)
+        holders = {nm for nm, v, _st in stores if is_san(v)}
+        for nm, v, st in stores:
+            if nm not in holders or isinstance(v, ast.Starred):
+                continue
+            n += 1
+            ok = safe(v)
+            R.check(ok, r, m.rel, qn, norm(stmt_of(st))[:90], (f"`{norm(v)[:50]}` is stored into `{nm}` as it is, while the other entries of `{nm}` go through the sanitiser: `{nm}` reaches the step record and the driver's json.dumps (whose only fallback dumps the same value again) - a value the encoder rejects makes the traced run raise where the untraced run returns" if not ok else ""), getattr(st, "lineno", f.lineno))
+    if n == 0:
+        raise AnalysisError("no container filled through a pass-through sanitiser found in the orchestrator / trace package (anchor vanished)")
+
+
+_VARIABLE_LENGTH = {"split", "rsplit", "splitlines"}
+
+
+def _trace_only_code_is_total(repo: Repo, R: Report, ex: ast.AST, facts: "_TraceFacts", helper_fns) -> None:
+    r = R.rule("C10-D1-trace-only-code-is-total", "code that runs only when a trace is attached - every trace-only block / conditional-expression arm of execute(), those of the failure handlers included, and the orchestrator helpers called only from there - applies no partial operation of its own to a value derived from the run (payload, context, node, the exception being handled) outside a containing try or a test on that value: no first / last / n-th element of a sequence whose length the run decides (`str(exc).splitlines()[0]`, `exc.args[0]`, `text.split()[1]`), no `next(it)` without default, no `min` / `max` of a possibly empty sequence without default, no `.index(..)`, no division by a run-derived number. Such an operation fails for particular legal values (an exception without a message, an empty payload) with an IndexError / StopIteration / ValueError / ZeroDivisionError of the framework's own: on the success path the traced run raises where the untraced run returns, in a failure handler the traced run raises something else than the untraced run", 3)
+    fold = facts.fold
+    flags = {facts.param} | facts.pos | facts.nn | facts.neg
+
+    def taint_of(fn: ast.AST, seeds: Set[str]) -> Set[str]:
+        t = set(seeds)
+        changed = True
+        while changed:
+            changed = False
+            for n in ast.walk(fn):
+                tg: List[ast.AST] = []
+                src: Optional[ast.AST] = None
+                if isinstance(n, ast.Assign):
+                    tg, src = list(n.targets), n.value
+                elif isinstance(n, (ast.AnnAssign, ast.AugAssign)) and n.value is not None:
+                    tg, src = [n.target], n.value
+                elif isinstance(n, ast.NamedExpr):
+                    tg, src = [n.target], n.value
+                elif isinstance(n, (ast.For, ast.comprehension)):
+                    tg, src = [n.target], n.iter
+                elif isinstance(n, ast.withitem) and n.optional_vars is not None:
+                    tg, src = [n.optional_vars], n.context_expr
+                if src is None or not any(isinstance(x, ast.Name) and x.id in t for x in ast.walk(src)):
+                    continue
+                for x in [y for one in tg for y in ast.walk(one)]:
+                    if isinstance(x, ast.Name) and isinstance(x.ctx, ast.Store) and x.id not in t and x.id not in flags:
+                        t.add(x.id)
+                        changed = True
+        return t
+
+    def tainted(e: Optional[ast.AST], t: Set[str]) -> bool:
+        return e is not None and any(isinstance(x, ast.Name) and x.id in t for x in ast.walk(e))
+
+    def guarded(n: ast.AST, operand: ast.AST) -> bool:
+        """Under a test that mentions the operand (its truth, its length, a membership): the code asked first."""
+        txt = norm(operand, 400)
+        child = n
+        for a in ancestors(n):
+            if isinstance(a, FuncNode + (ast.Lambda,)):
+                return False
+            tests: List[ast.AST] = []
+            if isinstance(a, (ast.If, ast.While)) and not any(child is x for x in ast.walk(a.test)):
+                tests = [a.test]
+            elif isinstance(a, ast.IfExp) and child is not a.test:
+                tests = [a.test]
+            elif isinstance(a, ast.BoolOp) and child in a.values:
+                tests = a.values[:a.values.index(child)]
+            elif isinstance(a, (ast.DictComp, ast.ListComp, ast.SetComp, ast.GeneratorExp)):
+                tests = [i for g_ in a.generators for i in g_.ifs]
+            elif isinstance(a, ast.Assert):
+                tests = []
+            if any(txt in norm(t_, 600) for t_ in tests):
+                return True
+            child = a
+        return False
+
+    def int_index(s: ast.AST) -> Optional[int]:
+        if isinstance(s, ast.Constant) and isinstance(s.value, int) and not isinstance(s.value, bool):
+            return s.value
+        if isinstance(s, ast.UnaryOp) and isinstance(s.op, ast.USub) and isinstance(s.operand, ast.Constant) and isinstance(s.operand.value, int):
+            return -s.operand.value
+        return None
+
+    def partial_ops(roots: List[ast.AST], t: Set[str]) -> List[Tuple[ast.AST, str]]:
+        out: List[Tuple[ast.AST, str]] = []
+        todo = list(roots)
+        while todo:
+            n = todo.pop()
+            if isinstance(n, FuncNode + (ast.Lambda,)) and n not in roots:
+                continue
+            todo.extend(ast.iter_child_nodes(n))
+            what, operand = "", None
+            if isinstance(n, ast.Subscript) and isinstance(n.ctx, ast.Load) and int_index(n.slice) is not None and tainted(n.value, t):
+                v, i = n.value, int_index(n.slice)
+                fixed = isinstance(v, (ast.Tuple, ast.List)) or (isinstance(v, ast.Call) and call_attr(v) in ("partition", "rpartition", "divmod", "splitext")) or \
+                    (isinstance(v, ast.Call) and call_attr(v) in ("split", "rsplit") and v.args and i in (0, -1)) or \
+                    (isinstance(v, ast.BoolOp) and isinstance(v.op, ast.Or) and i in (0, -1) and (
+                        (isinstance(v.values[-1], (ast.List, ast.Tuple)) and v.values[-1].elts) or (isinstance(v.values[-1], ast.Constant) and isinstance(v.values[-1].value, (str, bytes)) and v.values[-1].value)))
+                if not fixed:
+                    what, operand = f"element {i} of a sequence whose length the run decides (IndexError when it is shorter - `splitlines()` of an empty text is `[]`)", v
+            elif isinstance(n, ast.Call):
+                d = call_name(n) or ""
+                if d == "next" and len(n.args) == 1 and not n.keywords and tainted(n.args[0], t):
+                    what, operand = "`next(..)` without a default (StopIteration on an exhausted iterator)", n.args[0]
+                elif d in ("min", "max") and len(n.args) == 1 and not any(k.arg == "default" for k in n.keywords) and tainted(n.args[0], t):
+                    what, operand = f"`{d}(..)` of a possibly empty sequence without a default (ValueError)", n.args[0]
+                elif isinstance(n.func, ast.Attribute) and n.func.attr == "index" and n.args and tainted(n.func.value, t):
+                    what, operand = "`.index(..)` of a run-derived sequence / text (ValueError when the item is absent)", n.func.value
+            elif isinstance(n, ast.BinOp) and isinstance(n.op, (ast.Div, ast.FloorDiv, ast.Mod)) and tainted(n.right, t) and not isinstance(n.right, ast.Constant) and not isinstance(n.left, (ast.Constant, ast.JoinedStr)):
+                what, operand = "division by a run-derived number (ZeroDivisionError)", n.right
+            if what and not contained(n) and not guarded(n, operand):
+                out.append((n, what))
+        out.sort(key=lambda p: (getattr(p[0], "lineno", 0), getattr(p[0], "col_offset", 0)))
+        return out
+
+    handler_names = {h.name for h in ast.walk(ex) if isinstance(h, ast.ExceptHandler) and h.name}
+    ex_params = {a.arg for a in ex.args.posonlyargs + ex.args.args + ex.args.kwonlyargs} - {"self", "cls"} - flags
+    t_ex = taint_of(ex, (RUN_STATE | handler_names | ex_params) - flags)
+    parts: List[Tuple[ast.AST, List[ast.AST]]] = []
+    for n in ast.walk(ex):
+        if isinstance(n, (ast.If, ast.IfExp)):
+            v = fold(n.test)
+            if v is None:
+                continue
+            part = n.body if v else n.orelse
+            roots = part if isinstance(part, list) else [part]
+            if roots:
+                parts.append((n, roots))
+    covered = [{id(x) for rt in roots for x in ast.walk(rt)} for _n, roots in parts]
+    n_parts = 0
+    for i, (n, roots) in enumerate(parts):
+        if any(id(n) in cov for j, cov in enumerate(covered) if j != i):
+            continue
+        n_parts += 1
+        in_handler = any(isinstance(a, ast.ExceptHandler) for a in ancestors(n))
+        bad = partial_ops(roots, t_ex)
+        for node, what in bad[:3]:
+            R.check(False, r, ORCH, EXECUTE, norm(node)[:90], f"`{norm(node)[:60]}` takes {what}; it runs only with a trace driver attached" + (", inside the handler that records the node's failure and re-raises: for such a value the traced run raises this error (the node's exception only as its `__context__`) and loses the error record, the untraced run raises the node's exception" if in_handler else ": for such a value the traced run raises where the untraced run returns"), node.lineno)
+        if not bad:
+            R.ok(r, ORCH, EXECUTE, f"trace-only {'block' if isinstance(n, ast.If) else 'arm'} at line {n.lineno}: no uncontained partial operation on run-derived values")
+    if n_parts < 3:
+        raise AnalysisError(f"execute(): only {n_parts} trace-only parts recognised")
+    for rel, qn, f in helper_fns:
+        if rel != ORCH:
+            continue
+        seeds = {a.arg for a in f.args.posonlyargs + f.args.args + f.args.kwonlyargs if a.arg not in ("self", "cls") and not (_ann_names(a.annotation) and _ann_names(a.annotation) <= SCALAR_ANN)}
+        bad = partial_ops(list(f.body), taint_of(f, seeds))
+        for node, what in bad[:3]:
+            R.check(False, r, rel, qn, norm(stmt_of(node))[:90], f"`{norm(node)[:60]}` takes {what}; {qn}() runs only with a trace driver attached: for such a value the traced run raises where the untraced run returns (or raises something else than the untraced run)", node.lineno)
+        if not bad:
+            R.ok(r, rel, qn, f"{qn}: no uncontained partial operation on run-derived values")
+
+
+def _run_taint(fn: ast.AST, seeds: Set[str], skip: Set[str] = frozenset()) -> Set[str]:
+    """Locals of *fn* computed from the seeds (assignments, loop / comprehension / with targets; flow-insensitive)."""
+    t = set(seeds)
+    changed = True
+    while changed:
+        changed = False
+        for n in ast.walk(fn):
+            tg: List[ast.AST] = []
+            src: Optional[ast.AST] = None
+            if isinstance(n, ast.Assign):
+                tg, src = list(n.targets), n.value
+            elif isinstance(n, (ast.AnnAssign, ast.AugAssign)) and n.value is not None:
+                tg, src = [n.target], n.value
+            elif isinstance(n, ast.NamedExpr):
+                tg, src = [n.target], n.value
+            elif isinstance(n, (ast.For, ast.comprehension)):
+                tg, src = [n.target], n.iter
+            if src is None or not any(isinstance(x, ast.Name) and x.id in t for x in ast.walk(src)):
+                continue
+            for x in [y for one in tg for y in ast.walk(one)]:
+                if isinstance(x, ast.Name) and isinstance(x.ctx, ast.Store) and x.id not in t and x.id not in skip:
+                    t.add(x.id)
+                    changed = True
+    return t
+
+
+def _record_mapping_keys_ordered(repo: Repo, R: Report, ex: ast.AST, facts: "_TraceFacts") -> None:
+    r = R.rule("C10-D1-run-keyed-mappings-ordered-by-their-producer", "the drivers encode the step record with `sort_keys=True`, which compares the keys of every mapping inside; values that went through the sanitiser were probed with the same option, but a mapping that a trace-package function builds itself with keys taken from the run (the keys of the context snapshots execute() hands it) and returns into the record was not: its producer - which runs in traced and untraced runs alike - fills it only while iterating over one `sorted(..)` of those keys (or stores them as text), so that a key set that cannot be ordered (0 next to 'total') fails in both modes, before the record exists, and not in the driver's json.dumps of the traced run only", 1)
+    strict = False
+    for rel in sorted(m for m in repo.modules if m.startswith("semantiva/trace/drivers/")):
+        for _qn, f in [(q, n) for q, n in repo.module(rel).defs.items() if isinstance(n, FuncNode)]:
+            for c in calls_in(f):
+                if (call_name(c) or "").split(".")[-1] in ("dumps", "dump") and any(o == "sort_keys" for o, _e in _strict_options(c)):
+                    strict = True
+    if not strict:
+        R.ok(r, ORCH, EXECUTE, "no driver encodes with sort_keys: mappings with keys of mixed types are accepted by every sink")
+        return
+    omod = repo.module(ORCH)
+    flags = {facts.param} | facts.pos | facts.nn | facts.neg
+    handler_names = {h.name for h in ast.walk(ex) if isinstance(h, ast.ExceptHandler) and h.name}
+    t_ex = _run_taint(ex, (RUN_STATE | handler_names) - flags, flags)
+    todo: List[Tuple[object, ast.AST, frozenset]] = []
+    for c in [x for x in ast.walk(ex) if isinstance(x, ast.Call)]:
+        tg = [(m, t) for m, t in repo.resolve_call(omod, c) if isinstance(t, FuncNode)]
+        if not tg:
+            tg = [(m, t) for m, t in _method_of_local_instance(repo, omod, c) if isinstance(t, FuncNode)]
+        for m, t in tg:
+            if not _trace_package(m.rel) or t.name == "__init__":
+                continue
+            b = _bind_call(t, c)
+            if b is None:
+                continue
+            seeds = frozenset(p for p, a in b.items() if any(isinstance(x, ast.Name) and x.id in t_ex for x in ast.walk(a)))
+            if seeds:
+                todo.append((m, t, seeds))
+    seen: Set[Tuple[int, frozenset]] = set()
+    n = 0
+    while todo:
+        m, t, seeds = todo.pop()
+        if (id(t), seeds) in seen:
+            continue
+        seen.add((id(t), seeds))
+        qn = qualname_of(t)
+        nf = nfunc(repo, m.rel, qn)
+        T = _run_taint(nf, set(seeds))
+        returned = {x.id for ret in walk_no_nested(nf) if isinstance(ret, ast.Return) and ret.value is not None for x in ast.walk(ret.value) if isinstance(x, ast.Name)}
+
+        def ordered(it: ast.AST) -> bool:
+            forms = _value_forms(nf, it)
+            return bool(forms) and all(isinstance(f_, ast.Call) and isinstance(f_.func, ast.Name) and f_.func.id == "sorted" and f_.args for f_ in forms)
+
+        sites: List[Tuple[ast.AST, ast.AST, str]] = []  # (loop / generator, iterable, mapping)
+        for x in walk_no_nested(nf):
+            if isinstance(x, ast.For):
+                tnames = {y.id for y in ast.walk(x.target) if isinstance(y, ast.Name)}
+                if not any(isinstance(y, ast.Name) and y.id in T for y in ast.walk(x.iter)):
+                    continue
+                for st in [y for b_ in x.body for y in ast.walk(b_)]:
+                    if isinstance(st, (ast.Assign, ast.AnnAssign)):
+                        for tg_ in (st.targets if isinstance(st, ast.Assign) else [st.target]):
+                            if isinstance(tg_, ast.Subscript) and isinstance(tg_.value, ast.Name) and isinstance(tg_.slice, ast.Name) and tg_.slice.id in tnames and tg_.value.id in returned:
+                                sites.append((x, x.iter, tg_.value.id))
+            elif isinstance(x, ast.DictComp) and isinstance(x.key, ast.Name):
+                g0 = next((g_ for g_ in x.generators if any(isinstance(y, ast.Name) and y.id == x.key.id for y in ast.walk(g_.target))), None)
+                if g0 is None or not any(isinstance(y, ast.Name) and y.id in T for y in ast.walk(g0.iter)):
+                    continue
+                st = stmt_of(x)
+                holder = ""
+                if isinstance(st, ast.Return):
+                    holder = "<returned mapping>"
+                elif isinstance(st, (ast.Assign, ast.AnnAssign)):
+                    names = [tg_.id for tg_ in (st.targets if isinstance(st, ast.Assign) else [st.target]) if isinstance(tg_, ast.Name)]
+                    holder = next((nm for nm in names if nm in returned), "")
+                if holder:
+                    sites.append((x, g0.iter, holder))
+        done_sites: Set[int] = set()
+        for loop, it, holder in sites:
+            if id(loop) in done_sites:
+                continue
+            done_sites.add(id(loop))
+            n += 1
+            ok = ordered(it)
+            R.check(ok, r, m.rel, qn, norm(loop)[:90] if isinstance(loop, ast.DictComp) else f"for {norm(loop.target)} in {norm(loop.iter)[:70]}", (f"`{holder}` is returned into the step record with keys taken from the run, in the order of `{norm(it)[:50]}` - not one `sorted(..)` of all of them: keys that cannot be ordered among each other (an int bin next to a text key) now pass this function in both modes and fail in the driver's `json.dumps(.., sort_keys=True)` (and in its fallback) of the traced run only - the traced run raises where the untraced run returns" if not ok else ""), getattr(loop, "lineno", t.lineno))
+    if n == 0:
+        raise AnalysisError("no trace-package function called from execute() builds a mapping keyed by run-derived keys (context delta summaries): anchor vanished")
